@@ -10,3 +10,29 @@ Definition known_duplicate_column (baseline models : schema) : bool :=
   (existsb has_duplicate_column models || existsb has_duplicate_column baseline)%bool.
 Definition known_C01_duplicate_column (c : m1_case) : bool :=
   known_duplicate_column (baseline_of c) (k_models c).
+
+(* C06-drop-before-unreference, self-referencing variant: a surviving table references ITSELF and the plan
+   deletes a referenced column while a column of the foreign key survives or is deleted later (DeleteColumn
+   actions are emitted in byte order of the column names, diff.rs:455-470).  apply_action drops a table-level
+   foreign key together with the referenced column only because drop_column_from_constraints also filters
+   ref_columns; an inline foreign_key on the column stays until that column goes, so the intermediate schema
+   (and every SQLite rebuild rendered from it) has a foreign key to a missing column.  The disjunction with the
+   original classifier keeps one finding id. *)
+Definition str_lt (a b : string) : bool := match String.compare a b with Lt => true | _ => false end.
+Definition known_drop_before_unreference_self (baseline models : schema) : bool :=
+  existsb (fun bt =>
+    match table_named (t_name bt) models with
+    | None => false
+    | Some mt =>
+        let gone x := negb (mem_str x (colnames mt)) in
+        existsb (fun k =>
+          match k with
+          | CForeignKey _ cols rt rcols _ _ =>
+              (String.eqb rt (t_name bt) &&
+               existsb (fun rc => (mem_str rc (colnames bt) && gone rc &&
+                                   existsb (fun fc => (negb (gone fc) || str_lt rc fc)%bool) cols)%bool) rcols)%bool
+          | _ => false
+          end) (t_constraints (normalized_or_self bt))
+    end) baseline.
+Definition known_C06_drop_order_self (c : m1_case) : bool :=
+  (known_C06_drop_order c || known_drop_before_unreference_self (baseline_of c) (k_models c))%bool.
